@@ -11,3 +11,16 @@ package keeper
 //@ define avsKey(addr)       = cat(g("x/avs/types.KeyPrefixAVSInfo"), addrbytes(hex2addr(addr)))
 //@ define avsRaw(c, addr)    = get(c, "avs", avsKey(addr))
 //@ define avsInfoOf(c, addr) = unm["x/avs/types.AVSInfo"](avsRaw(c, addr))
+
+// ---------------------------------------------------------------------------------------------
+// C20: task identifiers per task contract are unique and strictly increasing from 1
+
+//@ define taskNumKey(a)    = cat(g("x/avs/types.KeyPrefixLatestTaskNum"), addrbytes(a))
+//@ define taskNumRaw(c, a) = get(c, "avs", taskNumKey(a))
+//@ define taskNum(c, a)    = ite(taskNumRaw(c, a) == nil, 0, be2u64(taskNumRaw(c, a)))
+
+//@ func (Keeper).GetTaskID
+//@   requires 0 <= taskNum(ctx, taskAddr) && taskNum(ctx, taskAddr) < 18446744073709551615
+//@   modifies get(ctx, "avs", taskNumKey(taskAddr))
+//@   ensures[C20.gtid.next]   result == old(taskNum(ctx, taskAddr)) + 1 && result >= 1
+//@   ensures[C20.gtid.stored] taskNumRaw(ctx, taskAddr) != nil && taskNum(ctx, taskAddr) == result
